@@ -146,7 +146,8 @@ func c06Build(proto string, f []string, cb Callbacks) c06Inst {
 		v.SetInterfaceID(*id)
 		return c06Inst{h: v, nArgs: 1, local: id,
 			sugg: func(o Option) bool {
-				return o.Type == IPv6CPOptInterfaceID && len(o.Data) == 8 && string(o.Data) != string(id[:])
+				return o.Type == IPv6CPOptInterfaceID && len(o.Data) == 8 && string(o.Data) != string(id[:]) &&
+					string(o.Data) != string(make([]byte, 8))
 			},
 			peer: func() string {
 				p := v.PeerConfig()
